@@ -572,8 +572,8 @@ CHECKS = {
                  "succeeded returned); (6) ExecMulti returns exactly one result per LuaExec and result i is a reply the server gave to the command carrying id i; "
                  "non-trivial = an Exec went through NOSCRIPT -> EVAL or an ExecMulti of >= 2 units returned; distinct = distinct event-log hash"),
         "parts": [
-            {"module": "rueidis", "scenario": "lua-exec", "quick": 30000, "thorough": 1500000},
-            {"module": "rueidis", "scenario": "lua-exec", "variant": "cluster", "quick": 20000, "thorough": 1000000},
+            {"module": "rueidis", "scenario": "lua-exec", "quick": 20000, "thorough": 800000},
+            {"module": "rueidis", "scenario": "lua-exec", "variant": "cluster", "quick": 12000, "thorough": 400000},
         ],
         "expected_probes": ["noscript-then-eval", "ghost-script-flush", "node-restart-lost-script-cache", "executed-but-unanswered",
                             "retryable-script-re-executed-after-fault", "exec-requested-sha-with-script-load", "first-exec-of-load-sha1-script-started-alone",
